@@ -9,7 +9,7 @@ import (
 )
 
 func (p *printer) stmtIf(s *ast.IfStmt, nextIsRBrace bool) {
-	p.print(s.Tok)
+	p.print(s.Pos(), s.Tok)
 	p.stmtIf_controlClause(s.Init, s.Cond, nil)
 	p.stmtIf_bodyBlock(s.Body, s.Else, 1, nextIsRBrace)
 }
@@ -45,7 +45,7 @@ func (p *printer) stmtIf_bodyBlock(body *ast.BlockStmt, else_ ast.Stmt, nindent 
 		case *ast.IfStmt:
 			p.stmtIf(s, nextIsRBrace)
 		case *ast.BlockStmt:
-			p.print(token.Zh_否则)
+			p.print(body.Rbrace, token.Zh_否则)
 			p.stmtIf_elseBlock(s, nindent)
 		default:
 			panic("unreachable")
